@@ -84,6 +84,15 @@ class Colour(enum.Enum):
     RED = 1
 
 
+class Level(enum.IntEnum):
+    """an enum that mixes a builtin in is still an enum, not a builtin"""
+    LOW = 1
+
+
+class Shade(str, enum.Enum):
+    DARK = "dark"
+
+
 @dataclass
 class Mapped:
     pass
@@ -158,19 +167,28 @@ def world(vm):
     vm.loader.add_module("pyvc_synth_c17", SYNTH)
     import datetime as _dt
     vm.loader.externals[("datetime", "datetime")] = vm.loader.ext_class("datetime", _dt.datetime)
-    vm.loader.externals[("enum", "Enum")] = vm.loader.ext_class("enum.Enum")
+    import enum as _enum
+    from pyvc.values import ExtClass
+    EnumC = vm.loader.ext_class("enum.Enum")
+    vm.loader.externals[("enum", "Enum")] = EnumC
+    # IntEnum is an Enum AND an int (sidecar-declared external hierarchy)
+    IntEnumC = ExtClass("enum.IntEnum", bases=(vm.ext("int"), EnumC))
+    vm.loader.externals[("enum", "IntEnum")] = IntEnumC
+    vm.loader.ext_classes["enum.IntEnum"] = IntEnumC          # class statements resolve dotted bases through this registry
     wfm = vm.loader.module(WF)
     fr = Frame(vm, wfm)
     W = {}
     for n in ("int", "float", "str", "bool", "datetime", "NoneType", "list", "set", "tuple", "type", "Sequence", "Union", "Optional", "Type", "MISSING"):
         W[n] = vm.norm_cls(vm.lookup(n, fr))
     W["Colour"] = cls(vm, "pyvc_synth_c17", "Colour")
+    W["Level"] = cls(vm, "pyvc_synth_c17", "Level")
+    W["Shade"] = cls(vm, "pyvc_synth_c17", "Shade")
     W["Mapped"] = cls(vm, "pyvc_synth_c17", "Mapped")
     W["Other"] = cls(vm, "pyvc_synth_c17", "Other")
     return W
 
 
-LEAVES = {"int": "b", "float": "b", "str": "b", "bool": "b", "datetime": "b", "Colour": "e", "Mapped": "c"}
+LEAVES = {"int": "b", "float": "b", "str": "b", "bool": "b", "datetime": "b", "Colour": "e", "Level": "e", "Shade": "e", "Mapped": "c"}
 
 
 def annotations(W):
